@@ -162,7 +162,7 @@ def run_chunk(chunk, ctx):
             col.add_witness(dict(name=prog.name, text=SymStr(items).concretize(m), c07=dict(chunk, tier=ctx["tier"]) if c07 else None), conc(res, m))
 
     left = max(1.0, min(ctx.get("chunk_time", 120), ctx["deadline"] - time.time()))
-    ex.explore(body, on_path=on_path, max_time=left, path_alarm=10.0)
+    ex.explore(body, on_path=on_path, max_time=left, path_alarm=10.0, max_paths=ctx.get("max_paths"))
     res = col.finish()
     res["stats"] = ex.stats()
     res["counters"]["symbolic_slots"] = len(sym)
